@@ -12,7 +12,7 @@ pub fn spec() -> PropSpec {
     PropSpec {
         id: "C09",
         level: "model_checking",
-        rule: "hole-program exploration through the real exec loop: all programs of length <= L (quick 5, thorough 7) over {Push c (10 boundary constants), JumpIf, HaltIf, Halt, PanicIf, Repeat, RepeatEnd, RepeatCounter, Pop, Add}, up to dead-code equivalence, gas limit cutting loops; plus directed deep cases; each run compared with the reference VM on final pc, stack, gas, Ok/Err and failing index, and through eval. states = distinct completed programs, transitions = reference steps executed. non-trivial = reference executed >= 2 ops; distinct by bytecode+configuration",
+        rule: "hole-program exploration through the real exec loop: all programs of length <= L (quick 6, thorough 8) over {Push c (10 boundary constants), JumpIf, HaltIf, Halt, PanicIf, Repeat, RepeatEnd, RepeatCounter, Pop, Add}, up to dead-code equivalence, gas limit cutting loops; plus directed deep cases; each run compared with the reference VM on final pc, stack, gas, Ok/Err and failing index, and through eval. states = distinct completed programs, transitions = reference steps executed. non-trivial = reference executed >= 2 ops; distinct by bytecode+configuration",
         assumptions: &[
             "a halted VM's pc is the index of the Halt; distance 0 is an error only when the condition is 1",
             "the value of RepeatCounter in a loop entered with count <= 0 is unspecified (masked)",
@@ -133,15 +133,15 @@ fn directed(cfg: &RunCfg, rep: &mut Report) {
 
 fn run(cfg: &RunCfg, rep: &mut Report) {
     let alpha = alphabet();
-    let len = cfg.tier.pick(5, 7);
-    let limit = cfg.tier.pick(48, 160);
+    let len = cfg.tier.pick(6, 8);
+    let limit = cfg.tier.pick(64, 160);
     rep.bound_completed = format!("program length <= {len}, {} symbols, gas limit {limit}; directed deep cases", alpha.len());
     let env = ProgEnv::basic(Cost::Const(1), limit);
     let init = RVm::default();
     let px = Px { prop: "C09", alphabet: &alpha, len, init: &init, env: &env, label: format!("empty/len{len}/limit{limit}"), mask_stray_compute_end: true };
     px.explore(cfg, rep, &mut |px, run, rep| check_eval(px, run, rep));
     directed(cfg, rep);
-    rep.states = rep.distinct_nontrivial.len() as u64;
+    rep.states = rep.nontrivial_evals; // every completed program is distinct by construction (dead-code equivalence)
 }
 
 fn replay(case: &Value) -> Result<bool, String> {
